@@ -2,6 +2,8 @@
 from framework import Failure
 import tiers as T
 import tierops
+import tgops
+import scriptops as SC   # splitTierEntries / spellCheckEntries (DESIGN 11.8)
 
 RULE = ("random histories (quick: 1200 of length <= 12; thorough: 12000 of length <= 25) over a pool of tiers: construct "
         "(from arbitrary, also malformed, entry lists), crop, eraseRegion, insertSpace, editTimestamps, insertEntry (3 modes), "
@@ -19,30 +21,40 @@ ASSUMPTIONS = ["arguments are type-correct (interval ops get interval tiers, dur
 case_json = lambda c: c
 case_from_json = lambda j: j
 def encode(c, enc):
+    if SC.is_sc(c):
+        return SC.encode(c, enc)
     if c["op"] == "strip":
         return "strip " + enc.s(c["s"])
     return tierops.encode(c, enc)
 
 
 def impl(c):
+    if SC.is_sc(c):
+        return SC.impl(c)
     if c["op"] == "strip":
         return ("ok", c["s"].strip())
     return tierops.impl(c)
 
 
 def render(c, r, enc):
+    if SC.is_sc(c):
+        return SC.render(c, r, enc)
     if c["op"] == "strip":
         return "ok " + enc.s(r[1])
     return tierops.render(c, r, enc)
 
 
 def wants_x(c):
+    if SC.is_sc(c):
+        return SC.wants_x(c)
     return c.get("grid", False)
 
 
 def oracle(c, r):
     op = c["op"]
     sig = {"op": op}
+    if SC.is_sc(c):
+        return SC.oracle(c, r)
     if op == "strip":
         return None  # unit correspondence of the model's str.strip() only
     if r[0] == "err":
@@ -67,6 +79,8 @@ def oracle(c, r):
 
 
 def tags(c, r):
+    if SC.is_sc(c):
+        return SC.tags(c, r)
     if c["op"] == "strip":
         return ["strip-unit"]
     out = [c["op"], "grid" if c.get("grid") else "dec", "step:%d" % min(c.get("step", 0), 25)]
@@ -76,6 +90,8 @@ def tags(c, r):
 
 
 def nontrivial(c, r):
+    if SC.is_sc(c):
+        return SC.nontrivial(c, r)
     if c["op"] == "strip":
         return r[1] != c["s"]
     return r[0] == "err" or (isinstance(r[1], dict) and len(r[1]["es"]) > 0)
@@ -207,6 +223,7 @@ def histories(rnd, n, maxlen):
 
 
 def corpus():
+    yield from SC.corpus()      # S1-1, S1-2 (fixed) and the worked examples of splitTierEntries / spellCheckEntries
     pt = {"k": "P", "name": "p", "es": [[1.0, "a"]], "lo": 0.0, "hi": 2.0}
     yield {"op": "pinsert", "tier": pt, "entry": [3.0, "b"], "mode": "error", "report": "silence", "grid": True}      # A3
     it = {"k": "I", "name": "a", "es": [[1.0, 2.0, "x"], [3.0, 4.0, "y"]], "lo": 0.0, "hi": 5.0}
@@ -272,6 +289,7 @@ def strip_units(rnd, tier):
 
 def gen(rnd, tier):
     yield from strip_units(rnd, tier)
+    yield from SC.gen(rnd, 3000 if tier == "thorough" else 300)
     if tier == "thorough":
         yield from histories(rnd, 12000, 25)
     else:
@@ -279,6 +297,10 @@ def gen(rnd, tier):
 
 
 def shrink(c):
+    if SC.is_sc(c):
+        if "tg" in c:
+            yield from tgops.shrink_tg(c)
+        return
     if "tier" in c:
         for s in T.shrink_spec(c["tier"]):
             yield dict(c, tier=s)
